@@ -220,6 +220,8 @@ class RetryExecutor(CanCustomizeBind, Executor):
         self._delegate = delegate
         self._default_retry_policy = retry_policy or ExceptionRetryPolicy(**kwargs)
         self._jobs = []
+        # The job being handed to the delegate right now, if any (see _cancel)
+        self._submitting = None
         self._submit_event = get_event()
         self._name = name
 
@@ -320,7 +322,11 @@ class RetryExecutor(CanCustomizeBind, Executor):
             if job.attempt != 0:
                 metrics.RETRY_TOTAL.labels(executor=self._name).inc()
 
-            delegate_future = self._delegate.submit(job.fn, *job.args, **job.kwargs)
+            self._submitting = job
+            try:
+                delegate_future = self._delegate.submit(job.fn, *job.args, **job.kwargs)
+            finally:
+                self._submitting = None
             job.future.delegate_future = delegate_future
 
             new_job = RetryJob(
@@ -333,6 +339,8 @@ class RetryExecutor(CanCustomizeBind, Executor):
                 job.args,
                 job.kwargs,
             )
+            # (a cancel attempt made while we were submitting, see _cancel)
+            new_job.stop_retry = job.stop_retry
             self._append_job(new_job)
             self._log.debug("Submitted: %s", new_job)
 
@@ -400,6 +408,16 @@ class RetryExecutor(CanCustomizeBind, Executor):
                     found_job.stop_retry = True
 
                     break
+
+        if found_job is None:
+            submitting = self._submitting
+            if submitting is not None and submitting.future is future:
+                # We're being called from the callable itself: a synchronous
+                # delegate runs it inside _submit_now, on this very thread,
+                # between the removal and the re-add of the job. It's running,
+                # so it can't be cancelled, but it won't be retried.
+                submitting.stop_retry = True
+                return False
 
         # This shouldn't be possible.
         # - Future holds a lock on itself, and has checked that it's not already done
